@@ -1,4 +1,5 @@
 import H2.Proofs.ClientFlow
+import H2.Proofs.ClientRunFlow
 /-!
 # C07 — the client never sends DATA beyond the server's windows, and finishes
 
@@ -237,5 +238,129 @@ theorem F48_prefix_witness : ∃ s es, ReachOld s es ∧ ∃ e ∈ es, ¬ Within
   intro h
   have := h (by decide)
   simp at this
+
+/-! ## the FULL serial model (`H2.Client.step`, the one the correspondence check compares with `conn.go`): every run
+
+NEEDS `import H2.Proofs.ClientRunFlow` at the top of this file. State form: ghost ledgers `Led` are stepped beside the
+connection (`gstep`, `grun`), and they are moved ONLY by what the connection receives and writes:
+`connInc`/`strInc sid` by the increments of the WINDOW_UPDATE frames the read loop goes through (the frames `splitFrames`
+cuts out of the `bytes` events, as far as `rdFrames` reads them), `iws` by the SETTINGS_INITIAL_WINDOW_SIZE of the SETTINGS
+frames among them (initially the value of the handshake), `connSent`/`strSent sid` by the lengths of the `.data` frames
+in the outputs (`Full.sent_ledgers_are_the_outputs`). The invariant `FL` (`H2/Proofs/ClientRunFlow.lean`) ties the
+`int32` windows `connWindow`, `pending[*].window` to them, wrap-around included. No hypothesis on the server: increments
+that overflow a window and INITIAL_WINDOW_SIZE changes of any size `Settings.Read` lets through are covered. -/
+
+section FullModel
+open H2.Client
+
+/-- **Full.data_within_windows**: in any run from the connection the driver creates, after EVERY step
+(1) the DATA octets written on the connection so far are at most 65 535 plus all increments received on stream 0;
+(2) for every stream on which the step wrote DATA octets, the octets written on it so far are at most the
+INITIAL_WINDOW_SIZE in force plus the increments received for it (RFC 9113 6.9.1/6.9.2: the stream's window, with the
+SETTINGS adjustments, was not overdrawn by the frames of this step);
+(3) no DATA frame of the step is longer than the MAX_FRAME_SIZE the connection holds. -/
+theorem Full.data_within_windows (c : Conn) (h : InitF c) (evs : List Event) :
+    GAll (fun g c e =>
+      ((gstep g c e).connSent : Int) ≤ 65535 + (gstep g c e).connInc ∧
+      (∀ sid, 0 < dataOn sid (outFrames (step c e).2) →
+        ((gstep g c e).strSent sid : Int) ≤ (gstep g c e).iws + (gstep g c e).strInc sid) ∧
+      (∀ sid len es, OutFrame.data sid len es ∈ outFrames (step c e).2 → len ≤ (step c e).1.maxFrameSize))
+      (Led.init c) c evs := by
+  refine GAll.imp ?_ evs _ _ (gall_stepOK evs _ _ (fl_init h))
+  intro g c e ok
+  refine ⟨ok.fl.connLe, ?_, fun sid len es hm => ok.size _ hm⟩
+  intro sid hs
+  have := ok.emit sid hs
+  simpa [gstep, Led.wrote] using this
+
+/-- **Full.windows_follow_ledgers**: in every reachable state the connection window is at most what the ledgers leave
+(65 535 + increments − DATA written) and DATA written is at most 65 535 + increments; every body that waits has a window
+of at most INITIAL_WINDOW_SIZE + increments − DATA written on its stream -/
+theorem Full.windows_follow_ledgers (c : Conn) (h : InitF c) (evs : List Event) :
+    let g := (grun (Led.init c) c evs).1
+    let c' := (run c evs).1
+    c'.connWindow ≤ 65535 + (g.connInc : Int) - g.connSent ∧ (g.connSent : Int) ≤ 65535 + g.connInc ∧
+    ∀ p ∈ c'.pending, p.2.window ≤ g.iws + g.strInc p.1 - g.strSent p.1 := by
+  intro g c'
+  have hfl := grun_fl evs _ _ (fl_init h)
+  rw [grun_conn] at hfl
+  exact ⟨hfl.conn, hfl.connLe, fun p hp => (hfl.ent p hp).wok.le⟩
+
+/-- **Full.sent_ledgers_are_the_outputs**: the `sent` ledgers are nothing but the DATA frames of the run's outputs: in
+total and per stream -/
+theorem Full.sent_ledgers_are_the_outputs (c : Conn) (evs : List Event) :
+    (grun (Led.init c) c evs).1.connSent = dataAll (runFrames (run c evs).2) ∧
+    ∀ sid, (grun (Led.init c) c evs).1.strSent sid = dataOn sid (runFrames (run c evs).2) := by
+  obtain ⟨a, b⟩ := grun_sent evs (Led.init c) c
+  exact ⟨by rw [a]; simp [Led.init], fun sid => by rw [b sid]; simp [Led.init]⟩
+
+/-- **Full.total_data_within_connection_window**: the two together, without ghosts on the left: the DATA octets of all
+frames written in a run are at most 65 535 plus the increments the ledger has counted on stream 0 -/
+theorem Full.total_data_within_connection_window (c : Conn) (h : InitF c) (evs : List Event) :
+    (dataAll (runFrames (run c evs).2) : Int) ≤ 65535 + (grun (Led.init c) c evs).1.connInc := by
+  have := (grun_fl evs _ _ (fl_init h)).connLe
+  rw [(Full.sent_ledgers_are_the_outputs c evs).1] at this
+  exact this
+
+/-- **Full.received_ledgers_are_the_frames**: the `received` ledgers are nothing but the increments of the WINDOW_UPDATE
+frames the read loop went through in the run (`runTaken`: the frames `splitFrames` cuts out of the `bytes` events, up to
+where `rdFrames` stops): those on stream 0 for the connection, those on `sid` for the stream -/
+theorem Full.received_ledgers_are_the_frames (c : Conn) (evs : List Event) :
+    (grun (Led.init c) c evs).1.connInc = ((runTaken c evs).map (wuOn 0)).sum ∧
+    ∀ sid, sid ≠ 0 → (grun (Led.init c) c evs).1.strInc sid = ((runTaken c evs).map (wuOn sid)).sum := by
+  obtain ⟨a, b⟩ := grun_inc evs (Led.init c) c
+  exact ⟨by rw [a]; simp [Led.init], fun sid hs => by rw [b sid hs]; simp [Led.init]⟩
+
+/-- **Full.iws_ledger_is_the_settings_history**: the INITIAL_WINDOW_SIZE ledger is the fold of `Led.recv` over the frames
+the read loop went through: the value of the last SETTINGS frame (not an acknowledgement) among them that carries
+INITIAL_WINDOW_SIZE, the handshake's value if there is none -/
+theorem Full.iws_ledger_is_the_settings_history (c : Conn) (evs : List Event) :
+    (grun (Led.init c) c evs).1.iws = ((runTaken c evs).foldl Led.recv (Led.init c)).iws :=
+  grun_iws evs _ _
+
+/-- **Full.connection_flow_control**, no ghost left: in any run, the DATA octets of all frames the client writes are at
+most 65 535 plus the increments of all WINDOW_UPDATE frames on stream 0 its read loop went through -/
+theorem Full.connection_flow_control (c : Conn) (h : InitF c) (evs : List Event) :
+    dataAll (runFrames (run c evs).2) ≤ 65535 + ((runTaken c evs).map (wuOn 0)).sum := by
+  have h1 := Full.total_data_within_connection_window c h evs
+  rw [(Full.received_ledgers_are_the_frames c evs).1] at h1
+  omega
+
+/-- what `Drv.handshake` builds satisfies the hypothesis -/
+theorem Full.handshake_gives_init (b : Bytes) (c : Conn) (h : Drv.handshake b = some c) : InitF c := handshake_initF h
+
+/-! ### non-vacuity: a body of 70 000 octets against the default windows, two WINDOW_UPDATEs, a SETTINGS change -/
+
+def fullBodyReq : ReqSpec :=
+  { tag := "a", method := [80, 79, 83, 84], scheme := [104, 116, 116, 112, 115], host := [104], path := [47], ua := [117],
+    hdrs := [], body := .buf 70000 }
+
+/-- WINDOW_UPDATE on stream 0, increment 10 000 -/
+def fullWu0 : List Nat := [0, 0, 4, 8, 0, 0, 0, 0, 0, 0, 0, 0x27, 0x10]
+/-- WINDOW_UPDATE on stream 1, increment 3 000 -/
+def fullWu1 : List Nat := [0, 0, 4, 8, 0, 0, 0, 0, 1, 0, 0, 0x0b, 0xb8]
+/-- SETTINGS, INITIAL_WINDOW_SIZE = 66 535 -/
+def fullSt : List Nat := [0, 0, 6, 4, 0, 0, 0, 0, 0, 0, 4, 0, 1, 0x03, 0xe7]
+
+def fullRun : List Event := [.req fullBodyReq, .bytes fullWu0, .bytes fullWu1, .bytes fullSt]
+
+example : InitF ({} : Conn) := initF_default
+
+/-- the DATA frames written, step by step: 65 535 octets in frames of at most 16 384, nothing for the connection window
+alone, 3 000 after the stream's WINDOW_UPDATE, 1 000 after INITIAL_WINDOW_SIZE went up by 1 000 -/
+example : (run {} fullRun).2.map (fun o => (outFrames o).map dataLen) =
+    [[0, 16384, 16384, 16384, 16383], [], [3000], [0, 1000]] := by decide +kernel
+
+/-- the ledgers at the end: every stream octet allowed has been used (69 535 = 66 535 + 3 000), the connection keeps
+6 000 (75 535 − 69 535) -/
+example : (grun (Led.init {}) {} fullRun).1.iws = 66535 ∧ (grun (Led.init {}) {} fullRun).1.connInc = 10000 ∧
+    (grun (Led.init {}) {} fullRun).1.connSent = 69535 ∧ (grun (Led.init {}) {} fullRun).1.strInc 1 = 3000 ∧
+    (grun (Led.init {}) {} fullRun).1.strSent 1 = 69535 ∧ (run {} fullRun).1.connWindow = 6000 := by decide +kernel
+
+/-- the three frames the read loop went through, and the octets written against them: 69 535 ≤ 65 535 + 10 000 -/
+example : (runTaken {} fullRun).length = 3 ∧ ((runTaken {} fullRun).map (wuOn 0)).sum = 10000 ∧
+    ((runTaken {} fullRun).map (wuOn 1)).sum = 3000 ∧ dataAll (runFrames (run {} fullRun).2) = 69535 := by decide +kernel
+
+end FullModel
 
 end H2.Props.C07
